@@ -351,6 +351,95 @@ def run_case(case):
     return res
 
 
+def apply_op(p, op):
+    """One operation on the profile (same as in run_case)."""
+    svcs = listed_services(p)
+    o = op["op"]
+    if o == "add":
+        p.add_service(mk_service(op["svc"]))
+    elif op["i"] >= len(svcs):
+        pass
+    elif o == "update":
+        p.update_service(svcs[op["i"]])
+    elif o == "addchar":
+        s = svcs[op["i"]]
+        s.add_characteristic(mk_char(op["char"], share=False))
+        p.update_service(s)
+    elif o == "delchar":
+        s = svcs[op["i"]]
+        cs = list(s.characteristics())
+        if op["j"] < len(cs):
+            s.remove_characteristic(cs[op["j"]])
+            p.update_service(s)
+    elif o == "remove":
+        p.remove_service(svcs[op["i"]])
+    else:
+        raise ValueError(o)
+
+
+def run_hist(case):
+    """A history in which service objects are assembled by hand, in any order of the primitive
+    operations, interleaved with operations on the profile; observed after EVERY step."""
+    res = {"steps": []}
+    SHARED.clear()
+    try:
+        ns = {}
+        for s in case["services"]:
+            ns[s["name"]] = mk_service(s)
+        cls = type("GenProfile", (Profile,), ns)
+        p = cls(start_handle=case["start"])
+    except Exception as e:  # noqa
+        res.update(exc=type(e).__name__, stage="build", msg=str(e)[:200])
+        return res
+    res["steps"].append(light(p))
+    pending = []
+    for k, h in enumerate(case["hops"]):
+        try:
+            t = h["h"]
+            if t == "new":
+                pending.append(PrimaryService(uuid=mk_uuid(h["uuid"])) if h["primary"] else SecondaryService(mk_uuid(h["uuid"])))
+            elif t == "op":
+                apply_op(p, h["op"])
+            elif h["i"] >= len(pending):
+                pass
+            elif t == "attach":
+                pending[h["i"]].add_characteristic(mk_char(h["char"], share=False))
+            elif t == "desc":
+                cs = list(pending[h["i"]].characteristics())
+                if h["j"] < len(cs):
+                    d = mk_desc(h["desc"])
+                    d.characteristic = cs[h["j"]]
+                    cs[h["j"]].add_descriptor(d)
+            elif t == "incl":
+                pending[h["i"]].add_included_service(IncludeService(mk_uuid(h["uuid"])))
+            elif t == "register":
+                p.add_service(pending.pop(h["i"]))
+            else:
+                raise ValueError(t)
+        except Exception as e:  # noqa
+            res.update(exc=type(e).__name__, stage="hop%d" % k, msg=str(e)[:200])
+            res["steps"].append(guard(lambda: light(p)))
+            return res
+        res["steps"].append(light(p))
+    try:
+        res["final"] = full(p)
+        res["lookups"] = lookups(p, case["queries"])
+        j = p.export_json()
+        res["export_text"] = j[:3000]
+        res["export"] = parse_export(j)
+    except Exception as e:  # noqa
+        res.update(exc=type(e).__name__, stage="observe", msg=str(e)[:200])
+        return res
+    try:
+        q = Profile(from_json=j)
+        j2 = q.export_json()
+        res["reimport"] = {"same": j2 == j, "export": parse_export(j2), "db": light(q)["db"], "final": full(q),
+                           "lookups": lookups(q, case["queries"])}
+    except Exception as e:  # noqa
+        res["reimport"] = {"exc": type(e).__name__, "msg": str(e)[:200]}
+    return res
+
+
 def sec_case(c):
     """SecurityAccess conversions on their own: list -> int -> list -> int."""
     try:
@@ -372,7 +461,7 @@ def int_case(n):
 
 def main():
     req = json.load(sys.stdin)
-    out = {"cases": [run_case(c) for c in req.get("cases", [])],
+    out = {"cases": [(run_hist(c) if "hops" in c else run_case(c)) for c in req.get("cases", [])],
            "sec": [sec_case(c) for c in req.get("sec", [])],
            "ints": [int_case(n) for n in req.get("ints", [])]}
     print("RESULT " + json.dumps(out))
